@@ -137,6 +137,62 @@ func c14Extras() E {
 		})
 		ex["doNotation"] = got == 42
 	}()
+	// more YieldFromIO shapes: an IO observed on a handler; an IO whose effect itself asks another coroutine; on a handle whose
+	// effect has already returned; on the zero-value utility instance.  YieldFromIO returns the IO's value, nothing else.
+	timed := func(f func() bool) bool {
+		ch := make(chan bool, 1)
+		go func() {
+			defer func() {
+				if recover() != nil {
+					ch <- false
+				}
+			}()
+			ch <- f()
+		}()
+		select {
+		case b := <-ch:
+			return b
+		case <-time.After(3 * time.Second):
+			return false
+		}
+	}
+	h := fpgo.Handler.NewByCh(make(chan func(), 4))
+	defer h.Close()
+	okAll := ex["yieldFromIO"].(bool)
+	okAll = okAll && timed(func() bool { // IO observed on a handler
+		var c fpgo.CorDef[int]
+		return c.DoNotation(func(self *fpgo.CorDef[int]) int {
+			return self.YieldFromIO(fpgo.MonadIONewGenerics(func() int { time.Sleep(time.Millisecond); return 31 }).ObserveOn(h))
+		}) == 31
+	})
+	okAll = okAll && timed(func() bool { // the IO's effect asks a target coroutine on behalf of the waiting coroutine
+		var target *fpgo.CorDef[int]
+		seen := 0
+		target = fpgo.CorNewGenerics[int](func() { seen = target.YieldRef(500) })
+		target.Start()
+		var c fpgo.CorDef[int]
+		got := c.DoNotation(func(self *fpgo.CorDef[int]) int {
+			return self.YieldFromIO(fpgo.MonadIONewGenerics(func() int {
+				time.Sleep(2 * time.Millisecond) // the coroutine is parked in YieldFromIO by now
+				return self.YieldFrom(target, 3) + 100
+			}).ObserveOn(h))
+		})
+		return got == 600 && seen == 3
+	})
+	okAll = okAll && timed(func() bool { // a handle whose effect has already returned
+		c := fpgo.CorNewGenerics[int](func() {})
+		c.Start()
+		for i := 0; i < 20000 && !c.IsDone(); i++ {
+			time.Sleep(50 * time.Microsecond)
+		}
+		time.Sleep(time.Millisecond)
+		return c.YieldFromIO(fpgo.MonadIOJustGenerics(5)) == 5
+	})
+	okAll = okAll && timed(func() bool { // the zero-value instance
+		var c fpgo.CorDef[int]
+		return c.YieldFromIO(fpgo.MonadIOJustGenerics(9)) == 9
+	})
+	ex["yieldFromIO"] = okAll
 	out["extras"] = ex
 	return out
 }
